@@ -210,6 +210,14 @@ fn classify(evs: &[Ev]) -> (&'static str, String) {
         );
     }
     let culprit = reads[k].clone();
+    // Preconditions of the listed findings, proved from the history of this key: every listed
+    // mechanism needs a worker write (insert / remove) on the same key racing with the spill, the
+    // transient miss needs a worker `get` of the same key (promotion from the backend) overlapping
+    // the read. An anomaly on a key nobody wrote to concurrently is none of them.
+    let worker_write = writes.iter().any(|e| e.thread != 99);
+    let overlapping_get = evs.iter().any(|e| {
+        e.thread != 99 && e.thread != culprit.thread && matches!(e.kind, Kind::Get(_)) && e.call < culprit.ret && culprit.call < e.ret
+    });
     let with_alt = |kind: Kind| -> bool {
         let mut h: Vec<Ev> = reads[..k].to_vec();
         let mut c = culprit.clone();
@@ -231,6 +239,12 @@ fn classify(evs: &[Ev]) -> (&'static str, String) {
         culprit.call,
         culprit.thread
     );
+    if !worker_write && !(overlapping_get && matches!(culprit.kind, Kind::Get(None) | Kind::Has(false))) {
+        return (
+            "header_map.concurrent_anomaly_on_key_without_concurrent_write",
+            format!("{at} has an answer that does not linearize although no worker thread wrote to this key in the round{}", if matches!(culprit.kind, Kind::Get(None) | Kind::Has(false)) { " and no get of the key overlaps the read" } else { "" }),
+        );
+    }
     match culprit.kind {
         Kind::Get(Some(u)) => {
             if with_alt(Kind::Get(None)) {
@@ -514,18 +528,19 @@ fn round(g: &mut Group, acc: &mut Acc, rng: &mut Rng, workers: usize) {
 pub fn concurrent(seed: u64, tier: Tier, scratch: &Path, budget: Duration) -> Acc {
     let rounds = tier.pick(2000usize, 40_000usize);
     let deadline = Deadline::after(budget);
-    let groups = 4usize;
+    let groups = 6usize;
     let before_front = hooks::HITS_AFTER_FRONT_N.load(Ordering::SeqCst);
     let before_win = hooks::WINDOW_OPS.load(Ordering::SeqCst);
     let mut acc = parallel(groups, |w| {
         let mut acc = Acc::new();
         let rt = IdleRuntime::new();
         let mut rng = Rng::new(seed ^ 0xC09C).fork(w as u64 + 1);
-        let limit = 1 + w % 2;
+        let limit = if w >= 4 { 2 } else { 1 + w % 2 };
         let dir = scratch.join(format!("hm-conc-{w}"));
         std::fs::create_dir_all(&dir).expect("mkdir");
         let map = new_map(&dir, limit, &rt, w % 2 == 1);
-        let keys = Keys::new(2 + w % 2, 0xCC00 + w as u64);
+        // groups 4 and 5: more keys than the workers touch (bystander keys that are only read)
+        let keys = Keys::new(if w >= 4 { 5 + w % 2 } else { 2 + w % 2 }, 0xCC00 + w as u64);
         let mut g = Group {
             map: &map,
             keys: &keys,
